@@ -339,7 +339,12 @@ impl<'a> YamlEmitter<'a> {
                     write!(self.writer, ":")?;
                     self.emit_val(true, v)?;
                 } else {
-                    self.emit_node(k)?;
+                    // An implicit key must stay on its line: no block scalar here.
+                    let multiline_strings = self.multiline_strings;
+                    self.multiline_strings = false;
+                    let res = self.emit_node(k);
+                    self.multiline_strings = multiline_strings;
+                    res?;
                     write!(self.writer, ":")?;
                     self.emit_val(false, v)?;
                 }
